@@ -123,7 +123,7 @@ pub fn check() -> PropertyCheck {
         ],
         subs: vec![Box::new(Pbt {
             name: "nat-e2e",
-            quick: 40_000,
+            quick: 150_000,
             thorough: 2_000_000,
             strat,
             test,
